@@ -919,7 +919,7 @@ func c12Concurrent(nm *hx.NodeMachine, prefix []hx.NOp, reqs []c12Req, pick c12P
 	out.NT = c12RegionsOverlap(sch.Steps, len(reqs), share)
 
 	merr := e.modelOracle(&out)
-	serr := e.selectorOracle(&out)
+	serr := e.selectorOracle(&out, merr == nil)
 	got, cerr := e.collect() // reopens the node
 	if cerr != nil {
 		return fail("%v", cerr)
@@ -1120,7 +1120,7 @@ func (e *c12Env) modelOracle(out *c12Outcome) error {
 }
 
 // selectorOracle: what locking selections returned.
-func (e *c12Env) selectorOracle(out *c12Outcome) error {
+func (e *c12Env) selectorOracle(out *c12Outcome, modelOK bool) error {
 	nm, reqs, runs, s, h, playReq := e.nm, e.reqs, e.runs, e.s, e.h, e.playReq
 	A, admitted := e.A, e.admitted
 	played := playReq >= 0 && runs[playReq].err == nil
@@ -1194,13 +1194,18 @@ func (e *c12Env) selectorOracle(out *c12Outcome) error {
 		if r.err != utxo.ErrNoEnoughUTXO {
 			return fmt.Errorf("SelectUtxos failed with %v", r.err)
 		}
-		// least amount a serial order can leave for this selector: everything the other successful
-		// selectors locked and everything the admitted / played transactions spent is gone
+		if !modelOK {
+			continue
+		}
+		// least amount a serial order can leave for this selector: only what exists both before and
+		// after all other requests (not spent by an admitted / played transaction, not created by a
+		// pending transaction the play evicted) and was not locked by another successful selector
 		addr := hx.Ring[reqs[i].Addr].Address
 		need, _ := new(big.Int).SetString(reqs[i].Need, 10)
 		left := big.NewInt(0)
+		final := nm.PoolState()
 		for _, u := range s.UtxosOf(addr) {
-			if u.Frozen == -1 || u.Frozen > h || spent[u.Key()] {
+			if u.Frozen == -1 || u.Frozen > h || spent[u.Key()] || final.U[u.Key()] == nil {
 				continue
 			}
 			if _, locked := handed[u.Key()]; locked {
